@@ -813,8 +813,11 @@ func (vfs *MemFS) Rename(oldpath, newpath string) error {
 			return &os.LinkError{Op: op, Old: oldpath, New: newpath, Err: vfs.err.PermDenied}
 		}
 
-		if strings.HasPrefix(nPI.Path(), oPI.Path()+string(vfs.PathSeparator())) {
-			// A directory can't be moved to a subdirectory of itself.
+		_, nIsDir := nChild.(*dirNode)
+
+		if !nIsDir && strings.HasPrefix(nPI.Path(), oPI.Path()+string(vfs.PathSeparator())) {
+			// A directory can't be moved to a subdirectory of itself
+			// (an existing directory as newpath is reported first, see below).
 			err := vfs.err.InvalidArgument
 			if vfs.OSType() == avfs.OsWindows {
 				err = avfs.ErrWinAccessDenied
